@@ -78,7 +78,6 @@ func ndbChecksumWork(b []byte) int64 {
 		return 0
 	}
 	limit := int64(uint32(le.Uint32(b[12:]) * 4096))
-	last := le.Uint32(b[16:]) - 1
 	type slot struct{ idx, off, cnt uint32 }
 	var slots []slot
 	look := map[uint32]slot{}
@@ -93,9 +92,6 @@ func ndbChecksumWork(b []byte) int64 {
 		sl := slot{le.Uint32(s[4:]), le.Uint32(s[8:]), le.Uint32(s[12:])}
 		slots = append(slots, sl)
 		look[sl.idx] = sl
-		if sl.idx == last {
-			break
-		}
 	}
 	var work int64
 	for _, s := range slots {
